@@ -147,6 +147,8 @@ cfg("MC_sub_2.cfg", sub_consts(MaxSel="= 2"), SUB_INV, spec="SpecSub", props=["S
 cfg("MC_sub_3.cfg", sub_consts(MaxEvents="= 3", MaxSel="= 2", Aliases='= {""}', FieldAlpha="<- AlphaSub3", AllowRefused="= FALSE", EventKinds="<- EvKinds2", ArgOpts="<- ArgOptsSub3"), SUB_INV, spec="SpecSub", props=["SubProgress"])
 cfg("MC_sub_2_big.cfg", sub_consts(), SUB_INV, spec="SpecSub", props=["SubProgress"])
 cfg("MC_sub_3_big.cfg", sub_consts(MaxEvents="= 3", MaxSel="= 2", Aliases='= {""}'), SUB_INV, spec="SpecSub", props=["SubProgress"])
+cfg("MC_sub_fragd.cfg", sub_consts(MaxEvents="= 1", MaxSel="= 4", Aliases='= {""}', MaxFrags="= 1", Conds='= {"T"}', FieldAlpha="<- AlphaSub3", AllowRefused="= FALSE",
+    ArgOpts="<- ArgOptsSub3", DirOpts="<- DirsSkipT", EventKinds="<- EvKinds2"), SUB_INV, spec="SpecSub", props=["SubProgress"])
 cfg("MC_sub_frag.cfg", sub_consts(MaxEvents="= 2", MaxSel="= 3", Aliases='= {""}', MaxFrags="= 1", Conds='= {"T", "Subscription"}', FieldAlpha="<- AlphaSub2", AllowRefused="= FALSE", ArgOpts="<- ArgOptsSub3"), SUB_INV, spec="SpecSub", props=["SubProgress"])
 
 # ---- simulation configs: large documents for the R3 drivers ---------------------------------
